@@ -8,4 +8,5 @@ MONITORS = {
     "C04": ["monitors.c04"],
     "C05": ["monitors.c05"],
     "C08": ["monitors.c08"],
+    "C12": ["monitors.c12"],
 }
